@@ -265,13 +265,18 @@ def r14_3(prog, out):
                 for cid in creators:
                     ci = prog.info(cid)
                     from mapstate import regions
-                    vac, _present = regions(prog, ci, submap)
+                    vac, _present = regions(prog, ci, submap, through_wrappers=True)
                     reg = A.cell("PushRegistryState", "push_subscriptions")
                     for e in prog.effects(cid):
                         if e.touches(reg) and e.kind in L.INSERT_KINDS and any(cb == b.id for cb, _ in e.chain) and e.bb in vac:
                             ok = True
                 if ok:
                     out.holds(k3, bi.loc(bb), "reached only under the vacant arm of the manager's name lookup")
+                elif any(b.id in prog.cone(cid, follow=("call", "closure", "poll")) and
+                         not any(e.touches(A.cell("PushRegistryState", "push_subscriptions")) and e.kind in L.INSERT_KINDS and any(cb == b.id for cb, _ in e.chain)
+                                 for e in prog.effects(cid)) for cid in creators):
+                    out.undecided(k3, bi.loc(bb), "the function that inserts into the manager's name map reaches this registration only through a callback it hands to a "
+                                  "container (a closure called by generic code): whether the registration is confined to the arm that creates is not decided")
                 else:
                     out.violation(k3, bi.loc(bb), "a push registration can happen for a CreateSubscription that is then rejected (the name is taken): the existing "
                                   "subscription of that name is pushed to the endpoint of the rejected request")
